@@ -80,8 +80,24 @@ def apply_contract(interp, c, func, args, kwargs):
     env = _clause_env(bound, ghosts, {'trace': st.trace, 'ghost': st.ghost})
     caller = interp.current_function_name()
     # the shape of a parameter is part of the precondition: integer ranges are proved at the call site
-    from .api import _Int
+    from .api import _Int, OneOf
     for pname, ty in c.params.items():
+        if isinstance(ty, OneOf) and pname in bound and all(isinstance(x, (str, int)) for x in ty.values):
+            # "one of these values" is part of the precondition as well
+            v = bound[pname]
+            if isinstance(v, SOpt):
+                v = interp.resolve(v)
+            if isinstance(v, SChoice) and all(any(a is x or a == x for x in ty.values) for a in v.alts):
+                continue
+            parts = [interp.eq(v, x) for x in ty.values]
+            if any(p is True for p in parts):
+                continue
+            ts = [to_z3(p) for p in parts if p is not False]
+            ok = wrap(z3.Or(*ts)) if ts else False
+            st.oblige('%s : requires[%s is one of the declared values] of %s' % (caller, pname, c.qname), ok,
+                      {'kind': 'callee-pre', 'callee': c.qname})
+            st.assume(ok)
+            continue
         if isinstance(ty, _Int) and (ty.lo is not None or ty.hi is not None) and pname in bound:
             v = bound[pname]
             if isinstance(v, (SOpt, SChoice)):
@@ -98,14 +114,20 @@ def apply_contract(interp, c, func, args, kwargs):
                       {'kind': 'callee-pre', 'callee': c.qname})
             st.assume(ok)
     if c.requires is not None:
-        ok = interp.truth(_call_pred(interp, c.requires, env))
+        ok = interp.truth(_call_pred(interp, c.requires, env, proving=(
+            '%s : requires of %s' % (caller, c.qname), {'kind': 'callee-pre', 'callee': c.qname})))
         st.oblige('%s : requires of %s' % (caller, c.qname), ok, {'kind': 'callee-pre', 'callee': c.qname})
         st.assume(ok)
     old = None
     if c.old is not None:
         old = _call_pred(interp, c.old, env)
         env = dict(env, old=old)      # `when` conditions of exceptional outcomes may mention the pre-state
-    if c.event is not None:
+    ev_name = c.event[0] if isinstance(c.event, tuple) else c.event
+    if isinstance(c.event, tuple):
+        # (name, payload): the payload expression is evaluated now, on the state at the call, and recorded
+        # with the event: (name, arguments, payload)
+        st.emit(ev_name, dict(bound), _call_pred(interp, c.event[1], env))
+    elif c.event is not None:
         st.emit(c.event, dict(bound))
     # deterministic `when` conditions of exceptional outcomes are predicates of the PRE-state: evaluated before
     # the frame is havoced (the callee may change the fields they read)
@@ -151,16 +173,20 @@ def apply_contract(interp, c, func, args, kwargs):
     def raise_(exc_cls, spec):
         exc = _make_exc(interp, exc_cls, spec, env)
         ens = spec.get('ensures')
+        if isinstance(ens, tuple) and callable(ens[1]):      # (clause, when): see the same form in `ensures`
+            ens = ens[0] if ens[1](interp.fn_name) else None
+        elif isinstance(ens, tuple):                         # (clause, 'check-only')
+            ens = None
         if ens is not None and 'trace' not in _param_names(ens):
             # exceptional postcondition: assumed of the exception the callee raises
             env_x = _clause_env(bound, ghosts, {'exc': exc, 'old': old, 'trace': st.trace, 'ghost': st.ghost})
             try:
-                st.assume(interp.truth(_call_pred(interp, ens, env_x)))
+                st.assume(interp.truth(_call_pred(interp, ens, env_x, assumed=True)))
             except PyRaise as e:
                 raise Unsupported('exceptional postcondition of %s raised %r when assumed at a call site'
                                   % (c.qname, e.exc))
         if c.event is not None:
-            st.emit(c.event + ':raised', dict(bound), exc)
+            st.emit(ev_name + ':raised', dict(bound), exc)
         raise PyRaise(exc)
 
     # exceptional outcomes
@@ -183,7 +209,20 @@ def apply_contract(interp, c, func, args, kwargs):
             if k > 0:
                 _, exc_cls, spec = nondet[k - 1]
                 raise_(exc_cls, spec)
-    if isinstance(c.returns, Dependent):
+    from .api import _Bool as _B, _Str as _S
+    if getattr(c, 'pure_result', False):
+        for n_ in list(bound):
+            if isinstance(bound[n_], (SOpt, SChoice)):
+                bound[n_] = interp.resolve(bound[n_])
+    if getattr(c, 'pure_result', False) and isinstance(c.returns, (_Int, _B, _S)) and \
+            all(isinstance(v, (SInt, SBool, int, str, bool)) or type(v).__name__ == 'SStr' for v in bound.values()):
+        # a deterministic function without effects: its result is an uninterpreted function of the arguments
+        # (that it is one is what `pure_result=True` claims: the body reads nothing but its arguments)
+        ts_ = [to_z3(bound[n_]) for n_ in bound]
+        rs_ = {_Int: z3.IntSort(), _B: z3.BoolSort(), _S: z3.StringSort()}[type(c.returns)]
+        uf_ = z3.Function('fn.' + c.qname.replace(':', '.'), *([t.sort() for t in ts_] + [rs_]))
+        result = wrap(uf_(*ts_))
+    elif isinstance(c.returns, Dependent):
         result = c.returns.make_for_call(interp, 'ret.%s' % short, env)
     else:
         result = c.returns.make(interp, 'ret.%s' % short) if isinstance(c.returns, Ty) else None
@@ -195,7 +234,13 @@ def apply_contract(interp, c, func, args, kwargs):
         result = SIter(ys, 0, eager=True)
     env2 = _clause_env(bound, ghosts, {'result': result, 'old': old, 'trace': st.trace, 'ghost': st.ghost})
     for name, clause in c.ensures.items():
-        if isinstance(clause, tuple):
+        if isinstance(clause, tuple) and callable(clause[1]):
+            # (clause, when): proved of the function, but assumed at a call site only where
+            # when(name of the function under verification) holds (detail that other levels do not need)
+            if not clause[1](interp.fn_name):
+                continue
+            clause = clause[0]
+        elif isinstance(clause, tuple):
             if clause[1] == 'check-only':   # proved of the function, not assumed at call sites
                 continue
             # (clause, 'effect') : executed for its effect on ghost state
@@ -206,7 +251,7 @@ def apply_contract(interp, c, func, args, kwargs):
             continue
         try:
             n_dec = len(st.decisions)
-            v = interp.truth(_call_pred(interp, clause, env2))
+            v = interp.truth(_call_pred(interp, clause, env2, assumed=True))
             if v is False and not st.scopes and len(st.decisions) == n_dec:
                 raise Unsupported('postcondition %r of %s is constantly false for the havoced result at a call site '
                                   '(identity with a fresh object? use a Dependent shape or a check-only clause)'
@@ -217,7 +262,7 @@ def apply_contract(interp, c, func, args, kwargs):
             raise Unsupported('postcondition %r of %s raised %r when assumed at a call site'
                               % (name, c.qname, e.exc))
     if c.event is not None:
-        st.emit(c.event + ':returned', dict(bound), result)
+        st.emit(ev_name + ':returned', dict(bound), result)
     return result
 
 
@@ -522,6 +567,8 @@ def make_inputs(interp, c):
 
 def _run_path(interp, reg, c, func, rep):
     st = interp.st
+    if getattr(getattr(c, 'module', None), 'string_alignment', False):
+        st.ghost['__align__'] = True      # (pyvc.strings: positions and searches are aligned with known pieces)
     args, ghosts = make_inputs(interp, c)
     reg.ghost_env = dict(ghosts)
     # ghost (monitor) variables declared in `modifies`: the function starts in an arbitrary monitor state
@@ -537,7 +584,7 @@ def _run_path(interp, reg, c, func, rep):
     env = _clause_env(args, ghosts, {'trace': st.trace, 'ghost': st.ghost})
     interp.root_values = [args, ghosts]
     if c.requires is not None:
-        st.assume(interp.truth(_call_pred(interp, c.requires, env)))
+        st.assume(interp.truth(_call_pred(interp, c.requires, env, assumed='aligned')))
     if st.check() == z3.unsat:
         raise PathAbort()
     old = None
@@ -627,7 +674,7 @@ def _run_path(interp, reg, c, func, rep):
                           interp.not_(w), {'kind': 'exc-post'})
         for name, clause in c.ensures.items():
             if isinstance(clause, tuple):
-                if clause[1] != 'check-only':
+                if clause[1] != 'check-only' and not callable(clause[1]):
                     continue
                 clause = clause[0]
             _oblige_clause(interp, '%s : ensures[%s]' % (fname, name), clause, env2, {'kind': 'post'})
@@ -635,7 +682,7 @@ def _run_path(interp, reg, c, func, rep):
         exc = outcome[1]
         matched = False
         for exc_cls, spec in c.raises.items():
-            if isinstance(exc_cls, type) and isinstance(exc, exc_cls):
+            if _exc_is(exc, exc_cls):
                 matched = True
                 env2 = _clause_env(args, ghosts, {'exc': exc, 'old': old, 'trace': st.trace, 'ghost': st.ghost})
                 when = spec.get('when')
@@ -645,13 +692,15 @@ def _run_path(interp, reg, c, func, rep):
                 st.oblige('%s : raises[%s] is a declared outcome' % (fname, _exc_name(exc_cls)), True,
                           {'kind': 'exc-post'})
                 ens = spec.get('ensures')
+                if isinstance(ens, tuple):
+                    ens = ens[0]
                 if ens is not None:
                     _oblige_clause(interp, '%s : raises[%s] ensures' % (fname, _exc_name(exc_cls)),
                                    ens, env2, {'kind': 'exc-post'})
                 break
         if not matched:
             for exc_cls in c.may_raise:
-                if isinstance(exc, exc_cls):
+                if _exc_is(exc, exc_cls):
                     matched = True
         if not matched:
             allowed = c.raises_only
@@ -740,14 +789,27 @@ def _shape_of_ty(ty):
     return ('obj',)
 
 
+def _exc_is(exc, exc_cls):
+    """does the exception belong to the declared outcome?  A class, or Iface(I): an opaque exception object
+    of interface I (an exception of the environment whose class is not fixed)."""
+    from .api import Iface
+    from .values import Opaque
+    if isinstance(exc_cls, Iface):
+        return isinstance(exc, Opaque) and exc._pv_iface is exc_cls.iface
+    return isinstance(exc_cls, type) and isinstance(exc, exc_cls)
+
+
 def _exc_name(e):
+    from .api import Iface
+    if isinstance(e, Iface):
+        return 'opaque:' + e.iface.__name__
     return getattr(e, '__name__', repr(e))
 
 
 def _oblige_clause(interp, name, clause, env, meta):
     st = interp.st
     try:
-        v = interp.truth(_call_pred(interp, clause, env))
+        v = interp.truth(_call_pred(interp, clause, env, proving=(name, meta)))
     except PyRaise as e:
         st.oblige(name, False, dict(meta, clause_raised=repr(e.exc)))
         return
